@@ -345,6 +345,12 @@ func modmSweepReplayer(prop string, ob *Obligation, cfg string, dir string) (boo
 	return ok, desc, firstLines(out, 3)
 }
 
+func decodeSweepReplayer(prop string, ob *Obligation, cfg string, dir string) (bool, string, string) {
+	ok, out := sweepReplay("decode_sweep_test.go.tmpl", "TestVerifDecodeSweep", "internal/ge25519", cfg, dir)
+	desc := fmt.Sprintf("%s: counterexample to \"%s\" (%s); confirmed on the real decoder / encoder: %s", ob.Harness, ob.Msg, ob.Pos, firstLines(out, 5))
+	return ok, desc, firstLines(out, 3)
+}
+
 func scalarmultSweepReplayer(prop string, ob *Obligation, cfg string, dir string) (bool, string, string) {
 	ok, out := sweepReplay("scalarmult_sweep_test.go.tmpl", "TestVerifScalarmultSweep", "internal/ge25519", cfg, dir)
 	desc := fmt.Sprintf("%s: counterexample to \"%s\" (%s); confirmed on the real scalar multiplications: %s", ob.Harness, ob.Msg, ob.Pos, firstLines(out, 5))
@@ -421,6 +427,9 @@ func init() {
 	}
 	for _, p := range []string{"vh_C17_multiScalarmult", "vh_C17_bosCoster"} {
 		customReplayers[p] = msmSweepReplayer
+	}
+	for _, p := range []string{"vh_C10_Unpack", "vh_C10_Pack", "vh_C10_decode"} {
+		customReplayers[p] = decodeSweepReplayer
 	}
 	for _, p := range []string{"vh_C19_barrett", "vh_C19_Expand64", "vh_C19_Mul"} {
 		customReplayers[p] = modmSweepReplayer
